@@ -139,6 +139,15 @@ def make_specs(seed, quick, volume=1):
                                            ("lme", "fse", "pgdb", "eq_ineq", None, modes[1]),
                                            ("lme", ["re", "fre"][salt % 2] if kind != "qpt" else "fre", "pgdb", "eq_ineq"),
                                            ("lme", ["fre", "re"][salt % 2] if kind != "qpt" else "fre", "pgdb", "eq_ineq")]})
+    # (g) standard (unrotated) testers and boundary objects aligned with them: the exact distributions contain exact zeros and ones
+    for rep in range((1 if quick else 4) * volume):
+        for kind in L.KINDS:
+            for para in (True, False):
+                salt += 1
+                fams = ["fre", "re", "fse"] if kind in ("qst", "povmt") else ["fre", "fse"]
+                specs.append({"seed": seed, "salt": salt, "sys": "1qubit", "kind": kind, "para": para, "data": "exact_b", "aligned": True,
+                              "shots": 1000, "m": 2 if kind in ("povmt", "qmpt") else None, "eps_proj": None, "noseq": True,
+                              "ests": [("ple", "eq_ineq"), ("ple", "ineq_eq")] + [("lme", fm, "pgdb", "eq_ineq") for fm in fams]})
     # (c) the installed projections leave physical points where they are
     for rep in range((2 if quick else 6) * volume):
         for sysname in (["1qubit"] if quick else ["1qubit", "1qutrit"]):
@@ -196,8 +205,11 @@ def eval_fixpoint(spec):
 def setup(spec):
     g = gen(spec["seed"], spec["salt"])
     qt, c, m = L.make_qt(g, spec["kind"], spec["sys"], spec["para"], m=spec["m"], eps_proj_physical=spec["eps_proj"],
-                         testers=spec.get("testers", "mub"))
-    true = L.true_object(g, spec["kind"], c, m, "boundary" if spec["data"] == "exact_b" else "interior")
+                         testers=spec.get("testers", "mub"), rotate=not spec.get("aligned"))
+    if spec.get("aligned"):
+        true = L.aligned_object(g, spec["kind"], spec["sys"], c, m)
+    else:
+        true = L.true_object(g, spec["kind"], c, m, "boundary" if spec["data"] == "exact_b" else "interior")
     if spec["data"] == "noisy_int":
         # noisy data of an object deep inside the physical set (equal mixture of a random full-rank object and the origin
         # object; the forward model is affine): the linear estimate is typically positive, but not on the equality constraint
@@ -283,6 +295,8 @@ def eval_spec(spec):
     cnt(f"cell {spec['sys']} {kind} para={spec['para']} data={data}")
     zeros = sum(int((p == 0).sum()) for _, p in empi)
     cnt("data with empty outcomes" if zeros else "data without empty outcomes")
+    if spec.get("aligned"):
+        cnt("aligned boundary data with exact zeros" if sum(int((np.asarray(p) < 1e-10).sum()) for _, p in empi) else "aligned data without zeros")
     iters = {}
     refcache = {}
     for est in [tuple(e) for e in spec["ests"]]:
